@@ -45,7 +45,91 @@ class VirtualToBase(Contract):
                      result=lambda c: Z(smt.fresh("childview"), None, {"fresh_container": True, "plain": True}))]
 
 
+class FromBaseMapLoop(LoopSpec):
+    """The explicit loop of a `_from_base` comprehension (contracts/lang_models.py), in iteration order; `out` is the
+    local result, xs the source.  With p elements done (dict form: visited set), pointwise at a Skolem index j0 / key k0:
+        len(out) == p                                  (list form)
+        visited  =>  out holds, at that position, a leaf equal to the source item or a FRESH node (above the Alloc of
+                     the function entry, below the current one) of the receiver's family whose view is plain(item)
+        nothing that existed at function entry changed; lock tables only grew."""
+    def __init__(self, kind):
+        self.kind = kind
+        self.ordered = (kind == "list")
+
+    def src(self, L, st):
+        from pyvc.loops import param_name
+        return to_val(st.loc[param_name(L.fi, 1)])
+
+    def out(self, L, st):
+        from pyvc.loops import returned_name
+        return st.loc[returned_name(L.fi)].term
+
+    def prepare(self, L, st):
+        st.ghost["fn_entry"] = st.copy()
+        st.ghost["map_loop"] = (self, L)
+        recv = st.loc[L.fi.node.args.args[0].arg]
+        L.sk["recv_cls"] = recv.ci if hasattr(recv, "ci") else st.rec(recv).cls
+        if self.kind == "list":
+            L.sk["j0"] = smt.fresh("j0", IntS)
+        else:
+            m = self.src(L, st)
+            k0 = smt.fresh("k0")
+            L.sk["k0"] = k0
+            L.sk["idx_k0"] = key_index(m, k0)
+            for f in mapping_key_facts(m, k0):
+                st.assume(f)
+
+    def havoc(self, L, st):
+        havoc_heap(st)
+
+    def item_ok(self, L, st, item, srcitem):
+        E = st.ghost["fn_entry"]
+        fd, fl = core.sc.family(L.eng, L.sk["recv_cls"])
+        a = Val.addr(item)
+        node = z3.And(smt.is_VRef(item), a >= E.g["Alloc"], a < st.g["Alloc"],
+                      st.sel("View", a) == bs.plain(srcitem),
+                      z3.If(core.is_mapping(srcitem), smt.ClsOf(a) == z3.IntVal(smt.tid_of(fd.name)),
+                            smt.ClsOf(a) == z3.IntVal(smt.tid_of(fl.name))))
+        leaf = item == srcitem
+        return z3.If(z3.Or(core.is_mapping(srcitem), core.is_sequence(srcitem)), node, leaf)
+
+    def invariant(self, L, st, vis):
+        E = st.ghost["fn_entry"]
+        xs, out = self.src(L, st), self.out(L, st)
+        res = [("alloc-monotone", st.g["Alloc"] >= E.g["Alloc"])]
+        x0 = E.ghost["skolem_addr"][0]
+        res.append(("old-objects-untouched", z3.Implies(x0 < E.g["Alloc"], z3.And(st.sel("View", x0) == E.sel("View", x0),
+                                                                                   st.sel("Cell", x0) == E.sel("Cell", x0)))))
+        for nme in E.g:
+            if nme.startswith("LockDom:"):
+                for k in E.ghost.get("skolem_res", []):
+                    res.append((f"lock-table-grows:{nme[8:]}", z3.Implies(z3.Select(E.g[nme], k), z3.Select(st.g[nme], k))))
+        if self.kind == "list":
+            j0 = L.sk["j0"]
+            p = bs.list_len(out)
+            res.append(("typed", smt.tyof(out) == T_LIST))
+            res.append(("length-is-position", z3.And(p >= 0, z3.Not(vis(p)), z3.Implies(p > 0, vis(p - 1)))))
+            res.append(("converted", z3.Implies(z3.And(j0 >= 0, vis(j0)),
+                                                self.item_ok(L, st, bs.list_get(out, VInt(j0)), bs.list_get(xs, VInt(j0))))))
+        else:
+            k0, j = L.sk["k0"], L.sk["idx_k0"]
+            done = z3.And(bs.dict_has(xs, k0), vis(j))
+            res.append(("typed", smt.tyof(out) == T_DICT))
+            res.append(("converted", z3.Implies(done, z3.And(bs.dict_has(out, k0),
+                                                             self.item_ok(L, st, bs.dict_get(out, k0), bs.dict_get(xs, k0))))))
+            res.append(("others-absent", z3.Implies(z3.Not(done), z3.Not(bs.dict_has(out, k0)))))
+        return res
+
+    def iteration_facts(self, L, st, i):
+        if self.kind == "dict":
+            m = self.src(L, st)
+            return [z3.Implies(item_key(m, i) == L.sk["k0"], i == L.sk["idx_k0"])]
+        return []
+
+
 def register(eng):
+    eng.loop_specs[("_comp_list", 1)] = FromBaseMapLoop("list")
+    eng.loop_specs[("_comp_dict", 1)] = FromBaseMapLoop("dict")
     eng.virtual["_to_base"] = VirtualToBase()
     eng.loop_specs[("SyncedDict._to_base", 1)] = ToBaseDictLoop()
     eng.loop_specs[("SyncedList._to_base", 1)] = ToBaseListLoop()
